@@ -260,6 +260,15 @@ func descProbes(c *Ctx, l [][2]int32) []int32 {
 	return out
 }
 
+// descSorted is the sorted copy as lazyInit builds it (a copy of List, sort.Slice by r[0]): the argument of
+// the translated source functions (go_* ops; Gen/RangesGo.v takes p.lazyInit().sorted as a parameter).
+// sort.Slice is deterministic, so this is the very order the implementation's object holds.
+func descSorted(l [][2]int32) [][2]int32 {
+	s := append([][2]int32(nil), l...)
+	sort.Slice(s, func(i, j int) bool { return s[i][0] < s[j][0] })
+	return s
+}
+
 // descCheckHas runs Has on obj (the implementation's own list object) for all probes.
 // valid: whether the list passes CheckValid (then Has must equal membership).
 func descCheckHas(c *Ctx, kind string, obj descRanges, where string, valid bool) {
@@ -280,6 +289,9 @@ func descCheckHas(c *Ctx, kind string, obj descRanges, where string, valid bool)
 		}
 	}
 	c.Case("desc", "has", ins, obs)
+	// the same observations against the TRANSLATED source (Tier T), fed with the sorted copy
+	gins := append([]string{kind, descRangesTok(descSorted(l))}, ins[2:]...)
+	c.Case("desc", "go_has", gins, obs)
 	c.Stat("has:" + kind)
 	c.StatN("has:probes", len(probes))
 }
@@ -314,6 +326,7 @@ func descCheckValid(c *Ctx, kind string, l [][2]int32, ms bool, where string) bo
 	} else {
 		c.Case("desc", "cvalid", []string{kind, Tok(ms), descRangesTok(l)}, []string{cls})
 	}
+	c.Case("desc", "go_cvalid", []string{kind, Tok(ms), descRangesTok(descSorted(l))}, []string{cls})
 	c.Stat("cvalid:" + kind + ":" + cls)
 	if (err == nil) != descSpecValid(kind, l, ms) {
 		c.PropFail("C36", "CheckValid disagrees with its specification (all ranges well formed, pairwise disjoint)", where, kind, Tok(ms), descRangesTok(l), cls)
@@ -328,6 +341,7 @@ func descCheckOverlap(c *Ctx, p, q [][2]int32, pv, qv bool, where string) {
 		return
 	}
 	c.Case("desc", "coverlap", []string{descRangesTok(p), descRangesTok(q)}, []string{Tok(got)})
+	c.Case("desc", "go_coverlap", []string{descRangesTok(descSorted(p)), descRangesTok(descSorted(q))}, []string{descErrClass(err)})
 	c.Stat("coverlap:" + Tok(got))
 	if pv && qv {
 		want := false
